@@ -1,6 +1,114 @@
-From LD Require Import Base F32 Data Model Ops Bucket Eval EvalFacts.
-(* first obligation; the full statements of DESIGN.md section 6 are added as they are proved *)
-Theorem C04_invalid_ctx_untouched : forall re_ok re_match o E P f,
-  run re_ok re_match o E P CInvalid f = Done (mkoutcome (err_detail KUserNotSpecified) false []).
-Proof. exact run_invalid. Qed.
-Print Assumptions C04_invalid_ctx_untouched.
+(* C04 Clause and operator semantics (partial: the regex engine is an oracle -- re_ok / re_match are universally
+   quantified Section variables, instantiated at run time by a table computed with Go's regexp) *)
+From LD Require Import Base F32 Data Scan Semver Time Model Ops Codec OpsSpec.
+
+Theorem C04_missing_kind_is_nonmatch : forall re_ok re_match c x,
+  ref_defined (cl_attr c) = true -> ref_has_err (cl_attr c) = false ->
+  str_eqb (ref_string (cl_attr c)) (s "kind") = false -> ctx_by_kind x (cl_kind c) = None ->
+  clause_match_noseg re_ok re_match c x = Ok false.
+Proof. exact missing_kind_is_nonmatch. Qed.
+Print Assumptions C04_missing_kind_is_nonmatch.
+
+Theorem C04_missing_attribute_is_nonmatch : forall re_ok re_match c x i,
+  ref_defined (cl_attr c) = true -> ref_has_err (cl_attr c) = false ->
+  str_eqb (ref_string (cl_attr c)) (s "kind") = false -> ctx_by_kind x (cl_kind c) = Some i ->
+  get_value_for_ref i (cl_attr c) = JNull ->
+  clause_match_noseg re_ok re_match c x = Ok false.
+Proof. exact missing_attribute_is_nonmatch. Qed.
+Print Assumptions C04_missing_attribute_is_nonmatch.
+
+(* negation inverts the outcome exactly when the attribute exists; arrays are matched element-wise *)
+Theorem C04_clause_match : forall re_ok re_match c x i v,
+  ref_defined (cl_attr c) = true -> ref_has_err (cl_attr c) = false ->
+  str_eqb (ref_string (cl_attr c)) (s "kind") = false -> ctx_by_kind x (cl_kind c) = Some i ->
+  get_value_for_ref i (cl_attr c) = v -> v <> JNull ->
+  clause_match_noseg re_ok re_match c x =
+  Ok (xorb (cl_negate c) (match v with JArr l => existsb (match_any re_ok re_match c) l | _ => match_any re_ok re_match c v end)).
+Proof. exact present_attribute. Qed.
+Print Assumptions C04_clause_match.
+
+Theorem C04_some_clause_value : forall re_ok re_match c cv vals i,
+  any_op re_ok re_match c cv vals i = true <->
+  exists k v, nth_error vals k = Some v /\ do_op re_ok re_match c cv v (i + k) = true.
+Proof. exact any_op_exists. Qed.
+Print Assumptions C04_some_clause_value.
+
+Theorem C04_in_is_primitive_equality : forall c v, cl_pre c = cpre_none ->
+  clause_find_value c v = is_prim v && existsb (prim_eqb v) (cl_values c).
+Proof. exact in_is_primitive_equality. Qed.
+Print Assumptions C04_in_is_primitive_equality.
+
+Theorem C04_kind_attribute : forall re_ok re_match c l,
+  ref_defined (cl_attr c) = true -> ref_has_err (cl_attr c) = false -> str_eqb (ref_string (cl_attr c)) (s "kind") = true ->
+  clause_match_noseg re_ok re_match c (CMulti l) =
+  Ok (xorb (cl_negate c) (existsb (fun i => match_any re_ok re_match c (JStr (c_kind i))) l)).
+Proof. exact kind_attribute_multi. Qed.
+Print Assumptions C04_kind_attribute.
+
+Theorem C04_undefined_attribute_is_malformed : forall re_ok re_match c x,
+  ref_defined (cl_attr c) = false -> clause_match_noseg re_ok re_match c x = Err EEmptyAttr.
+Proof. exact undefined_attribute_error. Qed.
+Print Assumptions C04_undefined_attribute_is_malformed.
+
+Theorem C04_invalid_attribute_is_malformed : forall re_ok re_match c x,
+  ref_defined (cl_attr c) = true -> ref_has_err (cl_attr c) = true ->
+  clause_match_noseg re_ok re_match c x = Err (EBadAttr (ref_string (cl_attr c))).
+Proof. exact invalid_attribute_error. Qed.
+Print Assumptions C04_invalid_attribute_is_malformed.
+
+Theorem C04_unknown_operator_never_matches : forall re_ok re_match c cv clv i,
+  ~ In (cl_op c) known_ops -> do_op re_ok re_match c cv clv i = false.
+Proof. exact unknown_op_false. Qed.
+Print Assumptions C04_unknown_operator_never_matches.
+
+Theorem C04_string_type_mismatch : forall f cv clv,
+  (forall x, cv <> JStr x) \/ (forall x, clv <> JStr x) -> string_op f cv clv = false.
+Proof. exact string_op_mismatch. Qed.
+Print Assumptions C04_string_type_mismatch.
+
+Theorem C04_numeric_type_mismatch : forall f cv clv,
+  (forall x, cv <> JNum x) \/ (forall x, clv <> JNum x) -> numeric_op f cv clv = false.
+Proof. exact numeric_op_mismatch. Qed.
+Print Assumptions C04_numeric_type_mismatch.
+
+Theorem C04_starts_with : forall p x, is_prefix p x = true <-> exists r, x = p ++ r.
+Proof. exact is_prefix_spec. Qed.
+Print Assumptions C04_starts_with.
+Theorem C04_ends_with : forall p x, is_suffix p x = true <-> exists l, x = l ++ p.
+Proof. exact is_suffix_spec. Qed.
+Print Assumptions C04_ends_with.
+Theorem C04_contains : forall p x, is_infix p x = true <-> exists l r, x = l ++ p ++ r.
+Proof. exact is_infix_spec. Qed.
+Print Assumptions C04_contains.
+
+(* numeric comparison is the order of the exact values: scale both operands to any common exponent and compare *)
+Theorem C04_numeric_is_value_order : forall a b e0,
+  (e0 <= de a)%Z -> (e0 <= de b)%Z -> dy_cmp a b = Z.compare (dm a * 2 ^ (de a - e0)) (dm b * 2 ^ (de b - e0)).
+Proof. exact dy_cmp_common. Qed.
+Print Assumptions C04_numeric_is_value_order.
+Theorem C04_numeric_trichotomy : forall a b,
+  (dy_ltb a b = true /\ dy_eqb a b = false /\ dy_ltb b a = false) \/
+  (dy_ltb a b = false /\ dy_eqb a b = true /\ dy_ltb b a = false) \/
+  (dy_ltb a b = false /\ dy_eqb a b = false /\ dy_ltb b a = true).
+Proof. exact dy_trichotomy. Qed.
+Print Assumptions C04_numeric_trichotomy.
+Theorem C04_numeric_transitive : forall a b c, dy_ltb a b = true -> dy_ltb b c = true -> dy_ltb a c = true.
+Proof. exact dy_lt_trans. Qed.
+Print Assumptions C04_numeric_transitive.
+
+Theorem C04_literal_without_kind : forall v, v <> [] -> attr_name_or_ref v [] = new_literal_ref v.
+Proof. exact attribute_literal_without_kind. Qed.
+Print Assumptions C04_literal_without_kind.
+Theorem C04_path_with_kind : forall v k, v <> [] -> k <> [] -> attr_name_or_ref v k = new_ref v.
+Proof. exact attribute_path_with_kind. Qed.
+Print Assumptions C04_path_with_kind.
+Theorem C04_literal_is_one_component : forall v, v <> [] ->
+  ref_has_err (new_literal_ref v) = false /\ ref_depth (new_literal_ref v) = 1%nat /\ ref_component (new_literal_ref v) 0 = v.
+Proof. exact literal_ref_is_single_component. Qed.
+Print Assumptions C04_literal_is_one_component.
+
+Theorem C04_semver_prerelease_before_release : forall v w,
+  sv_major v = sv_major w -> sv_minor v = sv_minor w -> sv_patch v = sv_patch w ->
+  sv_pre v <> [] -> sv_pre w = [] -> semver_cmp v w = (-1)%Z.
+Proof. exact semver_prerelease_before_release. Qed.
+Print Assumptions C04_semver_prerelease_before_release.
